@@ -156,6 +156,7 @@ sse_rule_loadoffX (OrcCompiler *compiler, void *user, OrcInstruction *insn)
   OrcVariable *dest = compiler->vars + insn->dest_args[0];
   int ptr_reg;
   int offset = 0;
+  int aligned;
 
   if (compiler->vars[insn->src_args[1]].vartype != ORC_VAR_TYPE_CONST) {
     orc_compiler_error (compiler, "code generation rule for %s only works with constant offset",
@@ -165,6 +166,8 @@ sse_rule_loadoffX (OrcCompiler *compiler, void *user, OrcInstruction *insn)
 
   offset = (compiler->offset + compiler->vars[insn->src_args[1]].value.i) *
     src->size;
+  /* the array may be aligned, element 'offset' of it only if the offset keeps the alignment */
+  aligned = src->is_aligned && ((compiler->vars[insn->src_args[1]].value.i * src->size) & 15) == 0;
   if (src->ptr_register == 0) {
     int i = insn->src_args[0];
     orc_x86_emit_mov_memoffset_reg (compiler, compiler->is_64bit ? 8 : 4,
@@ -196,15 +199,15 @@ sse_rule_loadoffX (OrcCompiler *compiler, void *user, OrcInstruction *insn)
       break;
     case 4:
       orc_x86_emit_mov_memoffset_sse (compiler, 4, offset, ptr_reg,
-          dest->alloc, src->is_aligned);
+          dest->alloc, aligned);
       break;
     case 8:
       orc_x86_emit_mov_memoffset_sse (compiler, 8, offset, ptr_reg,
-          dest->alloc, src->is_aligned);
+          dest->alloc, aligned);
       break;
     case 16:
       orc_x86_emit_mov_memoffset_sse (compiler, 16, offset, ptr_reg,
-          dest->alloc, src->is_aligned);
+          dest->alloc, aligned);
       break;
     default:
       orc_compiler_error (compiler,"bad load size %d",
